@@ -21,32 +21,95 @@ K_VIS = "<GAVisitor<$0,$1> as serde::de::Visitor>::visit_seq"
 
 
 def check_serialize(ctx, cfg):
+    """serialize = serialize_tuple(N)?, then serialize_element(item)? for every item of the full forward traversal of &self - stopping at the first
+    error -, then end(), whose result is returned. The traversal may be a loop over the slice iterator, a loop over the index range 0..N
+    addressing element i, or `iter().try_for_each(|el| tup.serialize_element(el))`."""
+    from ..loops import find_loops
     rule = "C17.S"
     b = ctx.body(cfg, K_SER, rule)
     if b is None:
         return
     a = ctx.analysis(cfg, K_SER)
+    db = ctx.db(cfg)
     N = a.tenv.length({"k": "param", "n": b["generics"][1]["n"]})
-    ser = [c for c in a.calls if c.fn.startswith("serde::Serializer::") or c.fn.startswith("serde::ser::")]
-    names = [c.fn.split("::")[-1] for c in ser]
+    T = {"k": "param", "n": b["generics"][0]["n"]}
+    S = a.tenv.size(T)
+
+    def ser_calls(an):
+        return [c for c in an.calls if c.fn.startswith("serde::Serializer::") or c.fn.startswith("serde::ser::")]
+    ser = ser_calls(a)
     st = [c for c in ser if c.fn == "serde::Serializer::serialize_tuple"]
-    el = [c for c in ser if c.fn == "serde::ser::SerializeTuple::serialize_element"]
     en = [c for c in ser if c.fn == "serde::ser::SerializeTuple::end"]
-    ok = sorted(names) == ["end", "serialize_element", "serialize_tuple"] and len(st) == len(el) == len(en) == 1
-    det = "serializer calls: %s" % names
+    el = [c for c in ser if c.fn == "serde::ser::SerializeTuple::serialize_element"]
+    others = [c.fn.split("::")[-1] for c in ser if c not in st + en + el]
+    ok = len(st) == 1 and len(en) == 1 and not others
+    det = "serializer calls: %s" % [c.fn.split("::")[-1] for c in ser]
     if ok:
         t_ok = st[0].args[0] == ("V", "arg", 2) and st[0].args[1] == ("I", N)
-        nx = [c for c in a.calls if c.fn == "core::iter::Iterator::next" and c.ret[0] == "O"]
-        it = [c for c in a.calls if c.fn == "core::iter::IntoIterator::into_iter"]
-        full = len(it) == 1 and isinstance(it[0].ret, tuple) and it[0].ret[:3] == ("V", "iter", "slice") and it[0].ret[3][1] == ("arg", 1) and not it[0].ret[3][2].t and it[0].ret[3][3] == N
-        e_ok = len(nx) == 1 and el[0].args[1] == nx[0].ret[1]
-        in_loop = a.reaches(el[0].bb, el[0].bb) and a.reaches(nx[0].bb, el[0].bb) if nx else False
-        # end() only on the None edge of the iteration, and its result is returned
-        end_ok = nx and any(f[0] == "variant" and f[1] == nx[0].ret and f[2] == 0 for f in en[0].facts) and a.dominates(st[0].bb, en[0].bb)
-        ok = t_ok and full and e_ok and in_loop and end_ok
-        det = "serialize_tuple(serializer, N): %s; items = full forward iteration of &self: %s; one serialize_element per item, passing that item: %s (inside the loop: %s); end() after the iteration: %s" % (t_ok, full, e_ok, in_loop, bool(end_ok))
+
+        def whole_self(x):
+            x = x[3] if isinstance(x, tuple) and len(x) == 5 and x[:3] == ("V", "iter", "slice") else x
+            return isinstance(x, tuple) and x and x[0] == "P" and x[1] == ("arg", 1) and not x[2].t and x[3] is not None and x[3] == N
+        trav, form, after = False, "no recognised traversal", None
+        if len(el) == 1:
+            lps = [lp for lp in find_loops(a) if el[0].bb in lp.blocks]
+            if len(lps) == 1:
+                lp = lps[0]
+                once = lp.count_on_paths(lambda c: c is el[0]) == {1}
+                if whole_self(lp.pipe) and not lp.backward:
+                    trav = once and el[0].args[1] == lp.payload
+                    form = "loop over the slice iterator of &self, passing the yielded item"
+                elif isinstance(lp.pipe, tuple) and len(lp.pipe) == 3 and lp.pipe[0] == "A" and isinstance(lp.pipe[1], tuple) and lp.pipe[1][:2] == ("adt", "core::ops::Range") \
+                        and lp.pipe[2][0] == ("I", Poly.const(0)) and lp.pipe[2][1] == ("I", N) and not lp.backward:
+                    p_ = el[0].args[1]
+                    idx = lp.payload[1] if lp.payload[0] == "I" else None
+                    trav = once and idx is not None and p_[0] == "P" and p_[1] == ("arg", 1) and p_[2] == idx * S
+                    form = "loop over 0..N, passing element i of &self"
+                # leaving the loop early only by returning (the `?` on an element error)
+                trav = trav and all(_returns_without_serializing(a, y) for (x, y) in lp.breaks)
+                after = lp.none_targets
+        elif not el:
+            from ..absint import State
+            drv = [c for c in a.calls if c.fn in ("core::iter::Iterator::try_for_each",)]
+            recv = drv[0].args[0] if len(drv) == 1 else None
+            if recv is not None and recv[0] == "P" and recv[3] is None and not recv[2].t:
+                recv = a.read_cell(State(drv[0].mem, drv[0].facts), recv[1], (), None)   # `&mut iter`: the iterator it points to
+            if len(drv) == 1 and whole_self(recv):
+                cv = drv[0].args[1]
+                cb = db.by_path.get(cv[1][1]) if cv[0] == "A" and isinstance(cv[1], tuple) and cv[1][0] == "closure" else None
+                if cb is not None:
+                    ca = ctx.analysis(cfg, cb["key"])
+                    cel = [c for c in ser_calls(ca)]
+                    one = len(cel) == 1 and cel[0].fn == "serde::ser::SerializeTuple::serialize_element" and (cel[0].args[1] == ("V", "arg", 2) or (cel[0].args[1][0] == "P" and cel[0].args[1][1] == ("arg", 2) and not cel[0].args[1][2].t)) and all(r["val"] == cel[0].ret for r in ca.returns)
+                    # the serializer state the closure uses is the one serialize_tuple returned (captured by &mut)
+                    trav = one and len(payload_calls(ca)) == 1
+                    form = "iter().try_for_each(|el| tup.serialize_element(el)) (stops at the first error)"
+                    # end() only on the Ok / Continue result of the traversal
+                    after = "driver"
+                    drv_ok = drv[0]
+        end_ok = False
+        if after == "driver":
+            end_ok = a.dominates(drv_ok.bb, en[0].bb) and any(f[0] == "variant" and f[2] == 0 for f in en[0].facts)
+        elif after:
+            end_ok = all(a.dominates(t, en[0].bb) or t == en[0].bb for t in after) and a.dominates(st[0].bb, en[0].bb)
+        ret_ok = any(r["val"] == en[0].ret or r["val"][0] == "V" for r in a.returns)
+        ok = bool(t_ok and trav and end_ok and ret_ok)
+        det = "serialize_tuple(serializer, N): %s; traversal: %s: %s; end() only after the complete traversal: %s" % (t_ok, form, bool(trav), bool(end_ok))
     ctx.ob(rule, K_SER, ok, det, at=b["at"], cfg=cfg)
     ctx.sample({"rule": rule, "cfg": cfg, "detail": det})
+
+
+def _returns_without_serializing(a, bb):
+    seen, work = set(), [bb]
+    while work:
+        x = work.pop()
+        if x in seen:
+            continue
+        seen.add(x)
+        if any(c.bb == x and (c.fn.startswith("serde::ser::") or c.fn.startswith("serde::Serializer::")) for c in a.calls):
+            return False
+        work.extend(s_ for s_ in a.edges.get(x, []) if not a.blocks[s_]["cleanup"])
+    return True
 
 
 def check_deserialize(ctx, cfg):
